@@ -20,6 +20,41 @@ Section Node.
 
   Definition cfg_of (c : option TeeCfg) : TeeCfg := match c with Some c => c | None => empty_cfg end.
 
+  (* the PCS policy in force (tee.go:37-49 + quote.go:29-31 + pcs/quote.go:143-150): the runtime's own PCS policy if its
+     constraints carry one; otherwise the consensus default PCS policy, provided a default policy exists, the PCS feature
+     is on and the default has a PCS part; only otherwise the hard-coded fallback (30 days, minimum 12, no lists, no TDX).
+     The three fills of ApplyDefaultConstraints are independent: an IAS part (present or defaulted) never suppresses
+     the PCS default. *)
+  Definition runtime_pcs (sc : Constraints) : option Policy :=
+    match sc_policy sc with Some p => qp_pcs p | None => None end.
+  Definition policy_in_force (cfg : TeeCfg) (sc : Constraints) : Policy :=
+    match runtime_pcs sc with
+    | Some pp => pp
+    | None =>
+        match f_default_policy cfg with
+        | Some d => if f_pcs cfg then match qp_pcs d with Some dp => dp | None => default_policy end else default_policy
+        | None => default_policy
+        end
+    end.
+
+  Lemma eff_pcs_policy_in_force cfg sc : eff_pcs_policy cfg sc = policy_in_force cfg sc.
+  Proof.
+    unfold eff_pcs_policy, eff_policy, policy_in_force, runtime_pcs.
+    destruct (f_default_policy cfg) as [[di dp]|]; destruct (sc_policy sc) as [[pi pp]|]; cbn [qp_pcs qp_ias];
+      try destruct pp; try destruct (f_pcs cfg); try destruct dp; reflexivity.
+  Qed.
+
+  Lemma pcs_policy_in_force_l cfg sc :
+    eff_pcs_policy cfg sc = policy_in_force cfg sc /\
+    (forall pp, runtime_pcs sc = Some pp -> policy_in_force cfg sc = pp) /\
+    (forall d dp, runtime_pcs sc = None -> f_default_policy cfg = Some d -> f_pcs cfg = true -> qp_pcs d = Some dp ->
+                  policy_in_force cfg sc = dp).
+  Proof.
+    split; [apply eff_pcs_policy_in_force|]. unfold policy_in_force. split.
+    - intros pp H. rewrite H. reflexivity.
+    - intros d dp H0 H1 H2 H3. rewrite H0, H1, H2, H3. reflexivity.
+  Qed.
+
   (* what a successful registration check establishes *)
   Record Binds (cfg : TeeCfg) (ts : Z) (height : N) (sc : Constraints) (node_id : bytes) (cap : CapTee)
          (a : Attestation) (raw : bytes) (c : Collateral) (mre mrs rd : bytes) : Prop := {
@@ -36,7 +71,9 @@ Section Node.
       rak_verify NP (ct_rak cap)
         (att_tuplehash NP ([rd; node_id; le_bytes 8 (a_height a)] ++ rek_tuple (ct_rek cap))) (a_sig a) = true /\
       a_height a <= height /\ height - a_height a <= eff_max_age cfg sc;
-    b_versions : a_version a <= 1 /\ sc_version sc <= 1 /\ (f_pcs cfg = false -> a_version a = 0 /\ sc_version sc = 0)
+    b_versions : a_version a <= 1 /\ sc_version sc <= 1 /\ (f_pcs cfg = false -> a_version a = 0 /\ sc_version sc = 0);
+    (* the policy under which the quote verified is the policy in force *)
+    b_policy : eff_pcs_policy cfg sc = policy_in_force cfg sc
   }.
 
   Lemma existsb_enclave mre mrs l :
@@ -83,6 +120,7 @@ Section Node.
       all: match goal with Hp : f_pcs _ = false |- _ => rewrite Hp in V1, S1; cbn in V1, S1 end.
       + destruct (a_version a =? 0) eqn:X; [apply N.eqb_eq in X; exact X|discriminate].
       + destruct (sc_version sc =? 0) eqn:X; [apply N.eqb_eq in X; exact X|discriminate].
+    - apply eff_pcs_policy_in_force.
   Qed.
 
   (* a verified quote whose report data does not commit to this RAK never registers *)
